@@ -8,6 +8,7 @@ import (
 	"crypto/sha1"
 	"encoding/hex"
 	"encoding/json"
+	"errors"
 	"fmt"
 	"os"
 	"os/exec"
@@ -308,6 +309,13 @@ func (r *Run) Parallel(t *testing.T, n int) bool {
 			tail := results[k].log
 			if len(tail) > 3000 {
 				tail = tail[:1500] + "\n...\n" + tail[len(tail)-1500:]
+			}
+			var ee *exec.ExitError
+			if errors.As(results[k].err, &ee) && ee.ExitCode() == 3 {
+				// exit 3 = the harness itself gave up (replay divergence, nondeterministic
+				// replay, watchdog): an infrastructure error, never a property violation
+				fmt.Fprintf(os.Stderr, "check: INFRASTRUCTURE ERROR in worker %d (announced %q):\n%s\n", k, string(ann), tail)
+				os.Exit(3)
 			}
 			r.Violation("crash:"+crashSignature(results[k].log), "worker process died without reporting: "+firstLine(tail),
 				map[string]any{"announced": string(ann), "output": tail, "err": fmt.Sprint(results[k].err)})
